@@ -5,6 +5,7 @@ inductive St where
   | none
   | sv (c : Cfg) (m : Mach)
   | ss (c : SCfg) (m : SRegs)
+  | ua (trk : Bool) (K : Nat) (m : URegs)
   | dead
 
 def showFault : Fault → String
@@ -94,6 +95,31 @@ def showSOut : SOut → String
   | .bytes b => bytesHex b
   | .byte b => byteHex b
 
+def parseUOp (w : List String) : Option UOp :=
+  match w with
+  | ["unew", r, n] => do pure (.new (← r.toNat?) (← n.toNat?))
+  | "ufrom" :: r :: xs => do pure (.from (← r.toNat?) (← nats xs))
+  | "uil" :: r :: xs => do pure (.from (← r.toNat?) (← nats xs))
+  | ["ucopy", r, s] => do pure (.copy (← r.toNat?) (← s.toNat?))
+  | ["umove", r, s] => do pure (.move (← r.toNat?) (← s.toNat?))
+  | ["uassign", r, s] => do pure (.assign (← r.toNat?) (← s.toNat?))
+  | ["uresize", r, n] => do pure (.resize (← r.toNat?) (← n.toNat?))
+  | ["ufill", r, x] => do pure (.fill (← r.toNat?) (← x.toNat?))
+  | ["uset", r, i, x] => do pure (.set (← r.toNat?) (← i.toNat?) (← x.toNat?))
+  | ["uclear", r] => do pure (.clear (← r.toNat?))
+  | ["udel", r] => do pure (.del (← r.toNat?))
+  | ["finish"] => pure .finish
+  | _ => none
+
+def showURegs (K : Nat) (m : URegs) : String :=
+  " ".intercalate ((List.range K).map fun r =>
+    match m r with
+    | none => s!"{r}:-"
+    | some a => s!"{r}:{a.length}[{",".intercalate (a.map toString)}]")
+
+def liveU (K : Nat) (m : URegs) : Nat :=
+  ((List.range K).map fun r => match m r with | none => 0 | some a => a.length).sum
+
 def junkOf (N : Nat) : List Byte := List.replicate (N + 1) 0xAA
 
 def stepLine (st : St) (line : String) : St × String :=
@@ -107,6 +133,10 @@ def stepLine (st : St) (line : String) : St × String :=
       match n.toNat?, k.toNat? with
       | some n, some k => (.ss ⟨n, k, tw == "p", junkOf n⟩ (fun _ => none), "ok")
       | _, _ => (.none, "bad-reset")
+  | ["reset", "ua", ty, k] =>
+      match k.toNat? with
+      | some k => (.ua (ty == "trk") k (fun _ => none), "ok")
+      | none => (.none, "bad-reset")
   | "reset" :: _ => (.none, "ok")
   | _ =>
     match st with
@@ -120,6 +150,13 @@ def stepLine (st : St) (line : String) : St × String :=
           | .error f => (.dead, showFault f)
           | .ok (m', none) => (.sv c m', "bad")
           | .ok (m', some ev) => (.sv c m', s!"{showRegs c m'} | {showEvents c ev} | {if c.trk then toString (m'.nctor - m'.ndtor) else "-"}")
+    | .ua trk K m =>
+        match parseUOp w with
+        | none => (st, "bad-op")
+        | some op =>
+          match ustep K m op with
+          | none => (st, "bad")
+          | some m' => (.ua trk K m', s!"{showURegs K m'} | {if trk then toString (liveU K m') else "-"}")
     | .ss c m =>
         match w with
         | ["ssplit", r, d, vs, ss] =>
